@@ -284,6 +284,7 @@ theorem FileH.write_gs (hfit : DevFits fs0 sz) (f : FileH) (buf : List Nat) :
 
 theorem FileH.truncate_gs (hfit : DevFits fs0 sz) (f : FileH) : GS fs0 sz (WClass fs0) f.truncate (fun _ => True) := by
   unfold FileH.truncate
+  refine GS.bind (setDirtyFlag_gs true) (fun _ _ => ?_)
   refine GS.bind GS.getFs (fun fs hfs => ?_)
   split
   · exact GS.fail _
